@@ -1169,7 +1169,15 @@ class Flow:
                         got = set()
                         for y in ys:
                             tt = self.term(y.value, callee, cenv, depth + 1)
-                            got.add(("elem", tt))
+                            one = ("elem", tt)
+                            # what a generator hands out comes in the order of the loops the yield sits in: keep their
+                            # iterables as order carriers (a walk over os.scandir() yields in enumeration order)
+                            par = self.prog.parent.get(y)
+                            while par is not None and par is not callee.node:
+                                if isinstance(par, ast.For):
+                                    one = ("inloop", fs(one), self.term(par.iter, callee, cenv, depth + 1))
+                                par = self.prog.parent.get(par)
+                            got.add(one)
                         out |= got or {("const", None)}
                     else:
                         rets = self.res.return_exprs(callee)
